@@ -17,6 +17,13 @@ CHECKS = {
     ),
 }
 
+CHECKS["C04"] = dict(
+    technique="TLA+ sfnt/TTC/WOFF writer state machine model-checked (MC_SfntWriter); files written by the real library read back by an independent reader and judged by TLC with the same predicates plus derived-field recomputation",
+    text="TLC checks the writer machine (offset/padding/sharing/sorted directory/master checksum theorem) for all write orders and payloads within small constants, then judges every file the real library writes (corpus, compiled TTX and generated fonts x flavour x reorderTables x glyf padding x TTC sharing) from integer fields extracted by an independent sfnt/WOFF/WOFF2 reader: alignment, zero padding, non-overlap, sorted directory, search fields, table and master checksums, WOFF/WOFF2 header fields, maxp/head/hhea/loca/glyph-bbox recomputation, flavour neutrality.",
+    note="Trusted: TLC, harness/rawsfnt.py (independent reader incl. WOFF2 glyf reconstruction), word sums computed in Python. Derived fields judged only on saves where the library recomputes them; CFF fonts container clauses only.",
+    ref="5/C04",
+)
+
 NOT_YET = "check not built yet in this round (see DESIGN.md section 10 for the build order)"
 
 
